@@ -8,7 +8,9 @@ import (
 )
 
 // notApplicable: properties not claimed, with the reason (DESIGN.md §6).
-var notApplicable = map[string]string{}
+var notApplicable = map[string]string{
+	"C09": "not applicable to static analysis (DESIGN.md §6): the Go backend emits Go source as text from about 17 000 lines of format templates; that the program this text denotes behaves like the bytecode VM is a relation between two executions. The only clause visible in the shape of the code - identifiers used by the templates exist - is already settled by the repository's own go/types check of the golden outputs, and a rule matching helper names in templates would rest on naming conventions, not on resolved program facts.",
+}
 
 // pending: properties whose rules are not (yet) exact on the pinned tree and
 // are therefore not claimed; kept separate from notApplicable so that the
